@@ -52,10 +52,10 @@ Print Assumptions C10_span_table_vs_vm.
    ids in use.
 
    Proved: the emission invariants, for ALL modules and card kinds.  In every program the model
-   returns, the bytecode is the encoding of an instruction list that ends with Exit, and every jump
+   returns, the bytecode is the encoding of an instruction list that ends with Exit, every jump
    operand, every function / closure / card label and every trace key is the first byte of an
-   instruction of that program; the decoder returns exactly that list when the operands are in
-   range.  (Not covered: operand ranges, string operands, local/upvalue/global index ranges, the
+   instruction of that program, and every instruction has a trace entry; the decoder returns
+   exactly that list when the operands are in range.  (Not covered: operand ranges, string operands, local/upvalue/global index ranges, the
    variables tables.) *)
 From Cao Require Import CompilerWf.
 
@@ -70,7 +70,8 @@ Theorem C10_compile_wellformed_partial :
       (forall i z, In i is -> jump_target i = Some z ->
                    (0 <= z)%Z /\ In (Z.to_nat z) (map fst (positions is))) /\
       (forall h pos, In (h, pos) (p_labels B) -> In (N.to_nat pos) (map fst (positions is))) /\
-      (forall a l, In (a, l) (p_trace B) -> In (N.to_nat a) (map fst (positions is))).
+      (forall a l, In (a, l) (p_trace B) -> In (N.to_nat a) (map fst (positions is))) /\
+      (forall p i, In (p, i) (positions is) -> exists l, In (N.of_nat p, l) (p_trace B)).
 Proof.
   intros M o B H Hl. destruct (compile_wellformed_partial M o B H Hl) as [is Hw]. exists is. exact Hw.
 Qed.
@@ -110,12 +111,13 @@ Theorem C10_compile_wellformed_partial_strong :
       (forall i z, In i is -> jump_target i = Some z ->
                    (0 <= z)%Z /\ In (Z.to_nat z) (map fst (positions is))) /\
       (forall h pos, In (h, pos) (p_labels B) -> In (N.to_nat pos) (map fst (positions is))) /\
-      (forall a l, In (a, l) (p_trace B) -> In (N.to_nat a) (map fst (positions is))).
+      (forall a l, In (a, l) (p_trace B) -> In (N.to_nat a) (map fst (positions is))) /\
+      (forall p i, In (p, i) (positions is) -> exists l, In (N.of_nat p, l) (p_trace B)).
 Proof.
   intros M o B H Hr Hl.
   destruct (compile_wellformed_partial_strong M o B H Hr Hl) as (is & Hok & Hd & Hb & _ & Hrest).
-  destruct Hrest as (He & Hj & Hlab & Htr).
+  destruct Hrest as (He & Hj & Hlab & Htr & Hcomp).
   exists is. split; [exact Hok|]. split; [exact Hd|]. split; [exact Hb|].
-  split; [exact He|]. split; [exact Hj|]. split; [exact Hlab | exact Htr].
+  split; [exact He|]. split; [exact Hj|]. split; [exact Hlab|]. split; [exact Htr | exact Hcomp].
 Qed.
 Print Assumptions C10_compile_wellformed_partial_strong.
